@@ -63,6 +63,10 @@ SEEDED = {
     "W05-A": ["C05", "C01"], "W05-B": ["C05", "C03"], "W06-A": ["C06"], "W06-B": ["C06"], "W07-A": ["C07", "C17"], "W07-B": ["C07", "C06"], "W08-A": ["C08"], "W08-B": ["C08"],
     "W09-A": ["C09"], "W09-B": ["C09"], "W11-A": ["C11"], "W11-B": ["C11", "C01"], "W12-A": ["C12", "C01"], "W12-B": ["C12", "C11"], "W13-A": ["C13", "C03"], "W13-B": ["C13"],
     "W14-A": ["C14", "C15"], "W14-B": ["C14"], "W15-A": ["C15"], "W15-B": ["C15"], "W16-A": ["C16"], "W16-B": ["C16"], "W17-A": ["C17"], "W17-B": ["C17"],
+    "V01-A": ["C01", "C11"], "V01-B": ["C03", "C01"], "V02-A": ["C03", "C02"], "V02-B": ["C03", "C02"], "V03-A": ["C03"], "V03-B": ["C03"], "V04-A": ["C04"], "V04-B": ["C04"],
+    "V05-A": ["C05", "C03"], "V05-B": ["C05", "C01", "C02"], "V06-A": ["C06"], "V06-B": ["C06"], "V07-A": ["C07", "C11", "C12"], "V07-B": ["C07", "C06"], "V08-A": ["C08"], "V08-B": ["C08", "C17"],
+    "V09-A": ["C09", "C17"], "V09-B": ["C09"], "V11-A": ["C11", "C01"], "V11-B": ["C11"], "V12-A": ["C12", "C01", "C11"], "V12-B": ["C12"], "V13-A": ["C13", "C03"], "V13-B": ["C13", "C17"],
+    "V14-A": ["C14"], "V14-B": ["C14"], "V15-A": ["C15"], "V15-B": ["C15", "C08"], "V16-A": ["C16"], "V16-B": ["C16"], "V17-A": ["C17", "C03", "C02"], "V17-B": ["C17"],
     "C14-A": ["C14"], "C14-B": ["C14"], "C15-A": ["C15"], "C15-B": ["C15"], "C16-A": ["C16"], "C16-B": ["C16"],
 }
 
